@@ -30,9 +30,26 @@ IteratorData& getIterData(primesieve_iterator* it)
   return *(IteratorData*) it->memory;
 }
 
-Vector<uint64_t>& getPrimes(primesieve_iterator* it)
+/// Put the iterator into the error state: its primes
+/// array is { PRIMESIEVE_ERROR }. This function runs inside
+/// a catch block (possibly after std::bad_alloc, possibly
+/// without IteratorData) so it must neither allocate memory
+/// nor throw, hence the primes array is a static constant.
+void setErrorState(primesieve_iterator* it, std::size_t i)
 {
-  return getIterData(it).primes;
+  static const uint64_t errorPrimes[1] = { PRIMESIEVE_ERROR };
+
+  // Ensures that the next primesieve_generate_next_primes()
+  // call fails again (cannot generate primes > 2^64).
+  it->start = PRIMESIEVE_ERROR;
+  if (it->memory)
+    getIterData(it).stop = PRIMESIEVE_ERROR;
+
+  it->primes = const_cast<uint64_t*>(errorPrimes);
+  it->size = 1;
+  it->i = i;
+  it->is_error = true;
+  errno = EDOM;
 }
 
 } // namespace
@@ -152,15 +169,7 @@ void primesieve_generate_next_primes(primesieve_iterator* it)
   {
     std::cerr << "primesieve_iterator: " << e.what() << std::endl;
     primesieve_clear(it);
-    auto& primes = getPrimes(it);
-    ASSERT(primes.empty());
-    primes.push_back(PRIMESIEVE_ERROR);
-    getIterData(it).stop = PRIMESIEVE_ERROR;
-    it->primes = primes.data();
-    it->size = primes.size();
-    it->i = 0;
-    it->is_error = true;
-    errno = EDOM;
+    setErrorState(it, 0);
   }
 }
 
@@ -198,13 +207,6 @@ void primesieve_generate_prev_primes(primesieve_iterator* it)
   {
     std::cerr << "primesieve_iterator: " << e.what() << std::endl;
     primesieve_clear(it);
-    auto& primes = getPrimes(it);
-    ASSERT(primes.empty());
-    primes.push_back(PRIMESIEVE_ERROR);
-    it->primes = primes.data();
-    it->size = primes.size();
-    it->i = it->size;
-    it->is_error = true;
-    errno = EDOM;
+    setErrorState(it, 1);
   }
 }
